@@ -47,6 +47,12 @@ MCNext ==
 MCSpec == MCInit /\ [][MCNext]_mcvars
 
 GenBound == Len(hist) <= GenDepth
+\* "A B A" patterns: what the first operation gave is given again after one intervening operation
+\* (the shape that exposes bookkeeping that two views of the rules keep separately)
+ABABound == /\ Len(hist) <= 4
+            /\ Len(hist) >= 2 => (hist[2].op \in {"all", "res"} /\ Len(hist[2].rules) > 0)
+            /\ Len(hist) = 4 => hist[4] = hist[2]
+PrintABA == (GenMode /\ Len(hist) = 4 /\ ABABound) => PrintT(<<"REPLAY", ToJson(hist)>>)
 PrintBehaviour == (GenMode /\ Len(hist) = GenDepth) => PrintT(<<"REPLAY", ToJson(hist)>>)
 
 GoalTwoActive == ~(\E r1, r2 \in active[Fam] : r1 # r2 /\ ~Eq(r1, r2) /\ KeyOf(Fam, r1) = KeyOf(Fam, r2))
